@@ -24,6 +24,11 @@ class TrieDict(object):
         self.__root = TrieDictNode()
 
     def __len__(self):
+        # NOTE: node counters only count items held by the node's children,
+        # so the empty prefix, stored on the root itself, must be added
+        if self.__root.value is not NULL:
+            return self.__root.counter + 1
+
         return self.__root.counter
 
     def __setitem__(self, prefix, value):
